@@ -92,6 +92,11 @@ Proof. vm_compute. reflexivity. Qed.
    must be woken by the transaction event: seeded change C09-m4) *)
 Example regression_serializable_two_followers : ends_well reg_serializable_two_followers = true.
 Proof. vm_compute. reflexivity. Qed.
+(* SERIALIZABLE Set and its rollback before the device ever connects, then it connects (the rollback waits at the apply
+   gate and has lowered Configuration.Index: the walk to the first unapplied proposal starts at Proposed.Index; seeded
+   change C09-m5) *)
+Example regression_sync_serializable_rollback : ends_well reg_sync_serializable_rollback = true.
+Proof. vm_compute. reflexivity. Qed.
 (* Set and its rollback before the device ever connects, then it connects (F-02e) *)
 Example regression_sync_wakeup : ends_well reg_sync_wakeup = true.
 Proof. vm_compute. reflexivity. Qed.
